@@ -10,11 +10,17 @@ OUT=/root/cov
 TC="$HOME/.rustup/toolchains/nightly-x86_64-unknown-linux-gnu"
 BIN="$TC/lib/rustlib/x86_64-unknown-linux-gnu/bin"
 IDS="${*:-C01 C02 C03 C04 C05 C06 C07 C08 C09 C10 C11 C12 C13 C14 C15 C16 C17 C18 C19 C20}"
-cd /verif/harness || exit 2
-RUSTFLAGS="-C instrument-coverage" CARGO_NET_OFFLINE=true cargo +nightly build --release --offline --target-dir "$OUT/target" 2>&1 | tail -2
+HERE="$(cd "$(dirname "$0")/.." && pwd)"
+cd "$HERE/harness" || exit 2
+EXTRA=()
+SRC="${PATRONUS_SRC:-/repo}"
+if [ -n "${PATRONUS_SRC:-}" ]; then
+  EXTRA=(--config "paths=[\"$PATRONUS_SRC/patronus\",\"$PATRONUS_SRC/patronus-dse\",\"$PATRONUS_SRC/patronus-egraphs\"]")
+fi
+RUSTFLAGS="-C instrument-coverage" CARGO_NET_OFFLINE=true cargo +nightly build --release --offline --target-dir "$OUT/target" "${EXTRA[@]}" 2>&1 | tail -2
 mkdir -p "$OUT/pvroot" "$OUT/prof"
-cp /verif/known_findings.jsonl "$OUT/pvroot/"
-rm -rf "$OUT/pvroot/corpus"; cp -r /verif/corpus "$OUT/pvroot/corpus"
+cp "$HERE/known_findings.jsonl" "$OUT/pvroot/"
+rm -rf "$OUT/pvroot/corpus"; cp -r "$HERE/corpus" "$OUT/pvroot/corpus"
 for id in $IDS; do
   rm -f "$OUT/prof/$id-"*.profraw
   START=$(date +%s)
@@ -25,7 +31,7 @@ for id in $IDS; do
 done
 "$BIN/llvm-profdata" merge -sparse "$OUT"/prof/*.profdata -o "$OUT/all.profdata"
 "$BIN/llvm-cov" export --format=lcov --instr-profile "$OUT/all.profdata" "$OUT/target/release/pvcheck" \
-  --ignore-filename-regex='(registry|rustc|/verif/)' > "$OUT/all.lcov" 2>/dev/null
+  --ignore-filename-regex='(registry|rustc|/harness/)' > "$OUT/all.lcov" 2>/dev/null
 python3 - "$OUT/all.lcov" > "$OUT/uncovered.txt" <<'PY'
 import sys, re
 cur = None; data = {}
@@ -36,7 +42,7 @@ for line in open(sys.argv[1]):
         n, c = line[3:].split(',')[:2]; data[cur][int(n)] = max(int(c), data[cur].get(int(n), 0))
 for f in sorted(data):
     d = data[f]
-    if not d or '/repo/' not in f: continue
+    if not d or '/patronus' not in f: continue
     unc = sorted(n for n, c in d.items() if c == 0)
     print(f"{f}: {len(d)-len(unc)}/{len(d)} lines ({100*(len(d)-len(unc))//len(d)}%)")
     rng = [];
